@@ -152,15 +152,21 @@ def getProcInodes (pid : Nat) (fds : List FdEntry) : Inodes :=
         m.append ((target.drop 8).dropLast) (pid, e.1)       -- inode[8:][:-1]
       else m) []
 
-/-- `NetConnections.get_all_inodes()`; `procs` is `pids()` in listing order, each with its
-    fd listing (`none` = listdir raised FileNotFoundError/ProcessLookupError/PermissionError) -/
+/-- merging one process' map into the system-wide one: `inodes.update(proc_inodes)` or
+    `for inode, pairs in proc_inodes.items(): inodes.setdefault(inode, []).extend(pairs)` -/
+def mergeProc (cfg : Cfg) (m : Inodes) (procInodes : Inodes) : Inodes :=
+  procInodes.foldl (fun m kv => if cfg.inodesExtend then m.extend kv.1 kv.2 else m.set kv.1 kv.2) m
+
+/-- body of the `for pid in pids()` loop (`none` = listdir raised
+    FileNotFoundError/ProcessLookupError/PermissionError → `continue`) -/
+def allStep (cfg : Cfg) (m : Inodes) (p : Nat × Option (List FdEntry)) : Inodes :=
+  match p.2 with
+  | none => m
+  | some fds => mergeProc cfg m (getProcInodes p.1 fds)
+
+/-- `NetConnections.get_all_inodes()`; `procs` is `pids()` in listing order, each with its fd listing -/
 def getAllInodes (cfg : Cfg) (procs : List (Nat × Option (List FdEntry))) : Inodes :=
-  procs.foldl (fun m p =>
-    match p.2 with
-    | none => m
-    | some fds =>
-      (getProcInodes p.1 fds).foldl (fun m kv =>
-        if cfg.inodesExtend then m.extend kv.1 kv.2 else m.set kv.1 kv.2) m) []
+  procs.foldl (allStep cfg) []
 
 /-! ### `process_inet` -/
 
